@@ -4,7 +4,7 @@ CONSTANTS
   Keys = {1, 2, 3}
   Kinds = {"LRU", "LFU", "FIFO", "Adaptive"}
   MaxFreq = 3
-  MaxLen = 5
+  MaxLen = 4
   AsImplemented_NoRemoveHook = TRUE
   AsImplemented_FifoDuplicates = TRUE
   AsImplemented_UnseenNone = TRUE
